@@ -145,8 +145,11 @@ NL_DOM = [("n", [0, 1, 3]), ("scale", [[1, 2]]), ("total", [[3, 1]]), ("cnt", [1
 
 def nl_items(tier):
     out = []
-    for name, routines in NL_BODIES.items():
+    for name, routines in list(NL_BODIES.items()) + [(k + "|private", v) for k, v in NL_BODIES.items()]:
         src = NL_HEAD
+        if name.endswith("|private"):
+            # the module's state is PRIVATE, only the routines are public
+            src = src.replace("  implicit none\n", "  implicit none\n  private\n  public :: s, top\n")
         for rname, args, lines in routines:
             decl = []
             if "x" in args.split(", "):
